@@ -7,6 +7,16 @@ ROOT = os.path.dirname(HERE)
 
 # property -> (level category, technique, level text, level note, design ref)
 CHECKS = {
+    "C08": ("fault_enumeration",
+            "attacker catalogue executed against live endpoints: misconfigured genuine stacks, a scripted reference peer without the identity, and a record-level man in the middle rewriting the cleartext flight; completion/panic monitors",
+            "(1) gmtls servers/clients holding genuine certificates with wrong keys, untrusted/expired/not-yet-valid/wrong-name/swapped/RSA/P-256 certificates, client certificates with wrong key/untrusted/expired under each ClientAuth policy; (2) a well-formed reference peer whose ServerKeyExchange is over other randoms / another encryption certificate / by another key / replayed, whose CertificateVerify is by another key / over another transcript / omitted / replayed, wrong Finished, pre-master under another key; (3) a man in the middle flipping every byte (sampled for long messages in quick) of every cleartext handshake message and applying structured rewrites (suite downgrade, randoms, session id, certificate swap/drop/append, drop/duplicate message). The attacked side must return an error; after a real byte change never both sides complete; no panic on the attacked side. Both GM suites, client-auth policies, plus TLS 1.2.",
+            "Trusted: ground-truth PKI, /verif/ref TLCP peer. A misconfigured attacker-side endpoint crashing on its own configuration is not judged.",
+            "DESIGN.md §5 C08"),
+    "C16": ("fault_enumeration",
+            "history workload over one client cache and one or two server configurations with a resumption-model oracle, passive decoding of resumed sessions under the original master secret, and an exhaustive ticket-tampering sweep through the session-state hook",
+            "Generates histories of up to 6 connections interleaved with ticket-key rotations (keep old / replace all), suite-list, ClientAuth and ticket-enable changes and client suite changes, for GMSSL and TLS 1.2; a model classifies every connection as must-resume / must-not-resume / may from the registry of issued tickets and the live key set; both ends' DidResume must agree and match; resumed GMSSL sessions must decode under the original session's master secret; peer identity must equal the original's. Tampering: every byte position (and truncation/extension) of a ticket followed by a connection: never resumed, always a silent full handshake.",
+            "Trusted: resumption model from the property text, /verif/ref TLCP decoder. 'may' connections are not judged on DidResume.",
+            "DESIGN.md §5 C16"),
     "C06": ("exploration",
             "configuration-matrix workload with a policy-model oracle, agreement / prefix-stream monitors, a passive reference GM/T 0024 decoder over the tapped wire and key log, and crypto/tls as independent peer",
             "Runs gmtls client/server pairs over an in-memory tapped transport for the matrix server mode x client kind x suites x preference x ClientAuth x client certificate x certificate source x tickets (GM part full-factorial in thorough), plus TLS 1.0-1.2 suites against crypto/tls in both roles; a policy model from the property text says must-complete / must-fail / unspecified; both ends must agree on ConnectionState and ExportKeyingMaterial; position-tagged payloads (to 200 KiB, seeded fragment plans, both directions concurrently) must arrive as exact prefixes; every GMSSL session is re-derived by the reference decoder (record MAC/tag under index-as-sequence-number, Finished values, ServerKeyExchange signature, pre-master recovery, plaintext equality).",
